@@ -179,6 +179,7 @@ pub struct EvidenceMeta<'a> {
 
 pub fn write_evidence(stats: &Stats, m: EvidenceMeta) {
     let c = ctx();
+    println!("DIGEST {} seed={} runs={} ticks={} comparisons={} digest={:016x}", c.prop, c.seed, stats.runs, stats.ticks, stats.comparisons, stats.digest);
     if c.dry {
         return;
     }
